@@ -5,6 +5,7 @@ import FrappyModel.Datatypes.Variants
 import FrappyModel.Datatypes.CompatUsers
 import FrappyModel.Datatypes.CopyHeap
 import FrappyModel.Datatypes.Import
+import FrappyModel.Datatypes.CommandInfo
 import FrappyModel.Spec.C03
 import FrappyModel.Generated.C03
 /-
@@ -185,9 +186,69 @@ def verdictOfJson (j : Json) : R Verdict :=
   | .str "bad" => pure .bad
   | _ => do return .other (← fldStr j "other")
 
+/-- the laws of `CompatLaws` (Base/NumCompat.lean) and the hypothesis `GridStable` of `rebuild_snaps` / `copy_snaps`,
+instantiated with `Float` on given doubles / integers: a *test* of the trusted base on the region the generators draw
+(names of the laws that fail).  `m` a limit, `s` a scale, `x ≤ y` values, `rr` / `ar` resolutions, `lo ≤ i ≤ hi` integers. -/
+def compatLawFailures (m s x y rr ar : Float) (lo i hi : Int) : List String :=
+  let imp (a b : Bool) : Bool := !a || b
+  let F := Float
+  let fin (v : F) : Bool := FloatOps.isFinite v
+  let M : F := FloatOps.maxFinite
+  let tol (v : F) : F := DType.tolerance rr ar v
+  let resOK : Bool := fin rr && DType.nonneg rr && DType.resLeOne rr && fin ar && DType.nonneg ar
+  let gridOK : Bool := fin m && fin s && DType.positive s
+  let checks : List (String × Bool) := [
+    ("feq_canon", imp (FloatOps.feq x y && FloatOps.same (FloatOps.addZero x) x && FloatOps.same (FloatOps.addZero y) y)
+      (FloatOps.same x y)),
+    ("lt_notNaN", imp (FloatOps.lt x y) (!FloatOps.isNaN x && !FloatOps.isNaN y)),
+    ("addZero_isNaN", FloatOps.isNaN (FloatOps.addZero x) == FloatOps.isNaN x),
+    ("addZero_le_left", FloatOps.le (FloatOps.addZero x) y == FloatOps.le x y),
+    ("addZero_le_right", FloatOps.le x (FloatOps.addZero y) == FloatOps.le x y),
+    ("finite_between", imp (fin m && fin y && FloatOps.le m x && FloatOps.le x y) (fin x)),
+    ("finite_bounds", imp (fin x) (FloatOps.le (FloatOps.neg M) x && FloatOps.le x M)),
+    ("bounds_finite", imp (FloatOps.le (FloatOps.neg M) x && FloatOps.le x M) (fin x)),
+    ("ofInt_between", imp ((FloatOps.ofInt (F := F) lo).isSome && (FloatOps.ofInt (F := F) hi).isSome &&
+      decide (lo ≤ i) && decide (i ≤ hi)) (FloatOps.ofInt (F := F) i).isSome),
+    ("ofInt_finite", match (FloatOps.ofInt i : Option F) with
+      | some w => imp (decide (-DType.intLimit ≤ i) && decide (i ≤ DType.intLimit)) (fin w)
+      | none => true),
+    ("round_between", imp ((FloatOps.round m).isSome && (FloatOps.round y).isSome && FloatOps.le m x && FloatOps.le x y)
+      (FloatOps.round x).isSome),
+    ("tol_nonneg", imp (fin rr && DType.nonneg rr && fin ar && DType.nonneg ar && fin x)
+      (!FloatOps.isNaN (tol x) && DType.nonneg (tol x))),
+    ("band_lo_mono", imp (fin m && resOK && fin x && fin y && FloatOps.le x y && FloatOps.le (FloatOps.sub m (tol x)) x)
+      (FloatOps.le (FloatOps.sub m (tol y)) y)),
+    ("band_hi_mono", imp (fin m && resOK && fin x && fin y && FloatOps.le x y && FloatOps.le y (FloatOps.add m (tol y)))
+      (FloatOps.le x (FloatOps.add m (tol x)))),
+    ("grid_ge_lt", match FloatOps.round (FloatOps.div x s) with
+      | some k => (match (FloatOps.ofInt k : Option F) with
+        | some w => imp (gridOK && FloatOps.le m (FloatOps.mul w s)) (FloatOps.lt (FloatOps.sub m s) x)
+        | none => true)
+      | none => true),
+    ("grid_le_lt", match FloatOps.round (FloatOps.div x s) with
+      | some k => (match (FloatOps.ofInt k : Option F) with
+        | some w => imp (gridOK && FloatOps.le (FloatOps.mul w s) m) (FloatOps.lt x (FloatOps.add m s))
+        | none => true)
+      | none => true),
+    -- not a law of the class: the hypothesis `GridStable` of `rebuild_snaps` / `copy_snaps`
+    ("hypothesis:GridStable", match DType.gridIndex s x with
+      | some k => (match (FloatOps.ofInt k : Option F) with
+        | some w => imp (fin s && DType.positive s && fin (FloatOps.mul w s)) (DType.gridIndex s (FloatOps.mul w s) == some k)
+        | none => true)
+      | none => true)]
+  (checks.filter (fun c => !c.2)).map (·.1)
+
 def handle (j : Json) : R Json := do
   let k ← fldStr j "k"
   match k with
+  | "laws" =>
+    let tuples ← (← fldArr j "tuples").mapM (fun t => do
+      match ← arr t with
+      | [m, s, x, y, rr, ar, lo, i, hi] =>
+        let f (v : Json) : R Float := do return Float.ofBits (← v.getNat?).toUInt64
+        return compatLawFailures (← f m) (← f s) (← f x) (← f y) (← f rr) (← f ar) (← lo.getInt?) (← i.getInt?) (← hi.getInt?)
+      | _ => throw "bad law tuple")
+    return Json.mkObj [("fail", jarr (tuples.map jstrs))]
   | "echo" =>
     let t ← dinfoOfJson (← fld j "di")
     return Json.mkObj [("di", dinfoToJson t), ("erased", dtypeToJson t.erase), ("wf", .bool t.erase.wfB)]
@@ -205,8 +266,8 @@ def handle (j : Json) : R Json := do
     return Json.mkObj [
       ("model", Json.mkObj [("datainfo", exToJson jvalToJson ex), ("tree2", exToJson dinfoToJson rebuilt),
         ("datainfo2", exToJson jvalToJson ex2), ("classes", skelToJson (rebuildC c).skel)]),
-      ("wf", .bool t.erase.wfB),
-      ("judge", jstrs (judgeDerived (← derivedOfJson impl)))]
+      ("wf", .bool t.erase.wfB), ("aligned", .bool t.exportableB),
+      ("judge", jstrs (judgeRebuilt t (← derivedOfJson impl)))]
   | "get" =>
     let d ← jvalOfJson (← fld j "json")
     return Json.mkObj [("model", exToJson dinfoToJson (getDatatype consts d))]
@@ -223,8 +284,8 @@ def handle (j : Json) : R Json := do
     return Json.mkObj [
       ("model", Json.mkObj [("tree2", exToJson dinfoToJson c), ("shared", jstrs (Heap.sharedKinds consts t)),
         ("classes", skelToJson (copyC ct).skel)]),
-      ("wf", .bool t.erase.wfB),
-      ("judge", jstrs (judgeDerived (← derivedOfJson impl) ++ judgeMutation m))]
+      ("wf", .bool t.erase.wfB), ("aligned", .bool t.exportableB),
+      ("judge", jstrs (judgeRebuilt t (← derivedOfJson impl) ++ judgeMutation m))]
   | "compat" =>
     let a ← ctypeOfJson (← fld j "a")
     let b ← ctypeOfJson (← fld j "b")
@@ -286,6 +347,41 @@ def handle (j : Json) : R Json := do
       | .error e => errToJson e
     return Json.mkObj [("model", m), ("nested", .bool (decide (NestedCmd a b))),
       ("judge", jstrs (judgeCmd a b verdict (← wits "wa") (← wits "wr")))]
+  | "cmdrebuild" =>
+    let opt (key : String) : R (Option (DInfo Float)) := do
+      match j.getObjVal? key with
+      | .ok .null => pure none
+      | .ok t => some <$> dinfoOfJson t
+      | .error _ => pure none
+    let c : CmdInfo Float := { argument := ← opt "arg", result := ← opt "res" }
+    let impl ← fld j "impl"
+    let obs (key : String) : R (CmdDerived Float) := do
+      let o ← fld impl key
+      let ps (k2 : String) : R (Option (List (Probe Float))) := do
+        match o.getObjVal? k2 with
+        | .ok .null => pure none
+        | .ok _ => some <$> probesOfJson o k2
+        | .error _ => pure none
+      return { built := ← fldBool o "built", datainfo := (← optJVal o "datainfo").getD .null,
+               datainfo' := ← optJVal o "datainfo2", argument := ← ps "argp", result := ← ps "resp",
+               shared := ← fldStrs o "shared" }
+    let ex := exportCommand consts c
+    let showCmd (r : Except Err (CmdInfo Float)) : Json := match r with
+      | .ok c' => Json.mkObj [("arg", (c'.argument.map dinfoToJson).getD .null), ("res", (c'.result.map dinfoToJson).getD .null)]
+      | .error e => errToJson e
+    let rebuilt : Except Err (CmdInfo Float) := match ex with
+      | .ok d => getCommand consts d
+      | .error e => .error e
+    return Json.mkObj [
+      ("model", Json.mkObj [("datainfo", exToJson jvalToJson ex), ("rebuild", showCmd rebuilt), ("copy", showCmd (copyCommand consts c))]),
+      ("aligned", .bool ((c.argument.map DInfo.exportableB).getD true && (c.result.map DInfo.exportableB).getD true)),
+      ("judge", jstrs ((judgeCmdDerived c (← obs "rebuild")).map ("rebuild:" ++ ·) ++ (judgeCmdDerived c (← obs "copy")).map ("copy:" ++ ·)))]
+  | "getcmd" =>
+    let d ← jvalOfJson (← fld j "json")
+    let showCmd (r : Except Err (CmdInfo Float)) : Json := match r with
+      | .ok c' => Json.mkObj [("arg", (c'.argument.map dinfoToJson).getD .null), ("res", (c'.result.map dinfoToJson).getD .null)]
+      | .error e => errToJson e
+    return Json.mkObj [("model", showCmd (getCommand consts d))]
   | "writable" =>
     let v ← ctypeOfJson (← fld j "value")
     let t ← ctypeOfJson (← fld j "target")
